@@ -7,6 +7,7 @@ import (
 	"fmt"
 	"sort"
 	"strings"
+	"time"
 
 	plrt "github.com/GuanceCloud/platypus/pkg/engine/runtime"
 	"github.com/GuanceCloud/platypus/pkg/engine/runtimev2"
@@ -73,6 +74,7 @@ type ImplOut struct {
 	Tags     map[string]string
 	Fields   map[string]any
 	Meas     string
+	Time     time.Time
 	Polls    int
 	After    int // probe calls after the signal was observed true
 	Aborted  bool
@@ -125,7 +127,7 @@ func RunV1(c *Case, fireAt int) ImplOut {
 	out.Trace = sig.Trace
 	out.Polls = sig.Polls
 	out.After = sig.AfterHit
-	out.Tags, out.Fields, out.Meas = pt.Tags, pt.Fields, pt.Measurement
+	out.Tags, out.Fields, out.Meas, out.Time = pt.Tags, pt.Fields, pt.Measurement, pt.Time
 	return out
 }
 
@@ -162,6 +164,7 @@ func RunV2(c *Case, sig runtimev2.Signal) ImplOut {
 
 // ModelOut is what the reference predicts.
 type ModelOut struct {
+	Stdout  string
 	Trace   []probe.Rec
 	Err     *model.Err
 	Pt      *model.Point
@@ -179,7 +182,7 @@ func RunModel(c *Case, opts map[string]int, extra map[string]func(*model.Interp,
 	in.File = c.Root
 	in.Extra = extra
 	err := in.Run(c.Scripts[c.Root])
-	out := ModelOut{Trace: in.Trace, Pt: pt, Touched: in.Touched, MapLoop: in.MapLoop}
+	out := ModelOut{Trace: in.Trace, Pt: pt, Touched: in.Touched, MapLoop: in.MapLoop, Stdout: in.Stdout.String()}
 	if err != nil {
 		if me, ok := err.(*model.Err); ok {
 			out.Err = me
